@@ -222,6 +222,18 @@ func gen(t *rapid.T) Case {
 		rapid.StringOfN(rapid.RuneFrom([]rune{'a', ' ', '\n', 'é', '>'}), 0, 4, -1),
 	).Draw(t, "prefix")
 	text := []byte(rapid.StringOfN(rapid.RuneFrom([]rune{'a', 'b', ' ', '\n', '\n', 'é', '世', '\r', '\t'}), 0, 200, -1).Draw(t, "text"))
+	// the text is bytes, not characters: Latin-1, cut multi-byte sequences, NUL
+	if rapid.IntRange(0, 2).Draw(t, "raw-bytes") == 0 {
+		k := rapid.IntRange(1, 4).Draw(t, "raw-count")
+		for i := 0; i < k; i++ {
+			at := rapid.IntRange(0, len(text)).Draw(t, "raw-at")
+			b := rapid.SampledFrom([]byte{0xe9, 0xff, 0xc3, 0x80, 0x00, 0xe4}).Draw(t, "raw-byte")
+			text = append(text[:at:at], append([]byte{b}, text[at:]...)...)
+		}
+	}
+	if rapid.IntRange(0, 7).Draw(t, "raw-prefix") == 0 {
+		prefix += string([]byte{rapid.SampledFrom([]byte{0xe9, 0xff, 0xc3}).Draw(t, "raw-prefix-byte")})
+	}
 	var chunks [][]byte
 	pos := 0
 	for pos < len(text) {
@@ -249,7 +261,7 @@ func TestCheck(t *testing.T) {
 		Level: "fault_enumeration",
 		Rule: "a case is (prefix, successive Write arguments, number of output bytes the underlying writer accepts before failing or -1); " +
 			"exhaustive part: every text over {a,LF} up to the length bound x prefixes {'>','ab','a LF'} x every division into non-empty Write calls x every stop point; " +
-			"random part: texts up to 200 bytes with multi-byte runes, CR, TAB, chunkings that split runes and include empty calls; " +
+			"random part: texts up to 200 bytes with multi-byte runes, CR, TAB, and in a third of the cases bytes that are not UTF-8 (Latin-1, cut sequences, NUL; sometimes in the prefix too), chunkings that split runes and include empty calls; " +
 			"non-trivial = non-empty prefix, text with a line break, and either two or more Write calls or a fault inside the output; distinct by (prefix, chunks, limit)",
 		Assumptions: []string{
 			"the underlying writer obeys io.Writer: n < len(p) only together with an error",
